@@ -22,7 +22,7 @@
    the inductive invariant all of the above are read off     model_invariant_all_schedules
    "every join eventually returns":
      - for the sleep/wake handshake as it was before           join_liveness_refuted_original (witness schedule,
-       fixes/C10/01+02 the clause is FALSE                        replayed by vm_compute) + deadlock_is_permanent
+       fixes/C10/01-03 the clause is FALSE                        replayed by vm_compute) + deadlock_is_permanent
      - for the code as it is now: NOT PROVED.  Validated by exhaustive explicit-state search of the
        model in bounded configurations and by stress / gated replays on the real code (see the
        check's level_note); the witness above no longer deadlocks (Example witness_survives_fix).
